@@ -7,6 +7,8 @@ from pddl_plus_parser.lisp_parsers import DomainParser, ProblemParser
 from pddl_plus_parser.models import Problem
 
 
+GOAL_COMPARISON_DIGITS = 15
+
 class MultiAgentProblemsConverter:
     """Converts factored multi-agent problems to single agent problems."""
 
@@ -65,13 +67,16 @@ class MultiAgentProblemsConverter:
                 set(combined_problem.goal_state_predicates)
             )
             # the numeric goal conditions are hashed by identity so duplicates are removed according to their text.
+            # (printed with more digits than any constant of a goal carries - conditions that differ only in a late
+            # decimal are different conditions.)
             combined_goal_fluents = {
-                goal_fluent.to_pddl()
+                goal_fluent.to_pddl(decimal_digits=GOAL_COMPARISON_DIGITS)
                 for goal_fluent in combined_problem.goal_state_fluents
             }
             for goal_fluent in agent_problem.goal_state_fluents:
-                if goal_fluent.to_pddl() not in combined_goal_fluents:
-                    combined_goal_fluents.add(goal_fluent.to_pddl())
+                goal_text = goal_fluent.to_pddl(decimal_digits=GOAL_COMPARISON_DIGITS)
+                if goal_text not in combined_goal_fluents:
+                    combined_goal_fluents.add(goal_text)
                     combined_problem.goal_state_fluents.add(goal_fluent)
 
         return combined_problem
